@@ -377,6 +377,36 @@ def rule_r5(F, rep, rid="C19.R5"):
     rep.floor(R, n, 18, "width x precision x conversion combinations")
 
 
+def rule_r6(F, rep):
+    R = rep.rule("C19.R6", "every format request goes through the argument state machine: std.format / `%` with any format string "
+                 "and any right-hand side ends in want_format_array / want_format_object (where missing and left-over arguments "
+                 "are reported); no path answers directly")
+    fn = F.fn("<%s>::do_std_format" % E)
+    rep.fn(fn)
+    for v in ("Array", "Object", "String", "Number", "Null"):
+        def extra_term(w, bb, t, env):
+            if t["k"] == "call":
+                n = callee_name(t) or ""
+                if n.endswith("::want_format_array") or n.endswith("::want_format_object"):
+                    return ("machine", n.rsplit("::", 1)[1])
+            return None
+        outs = em.walk_handler(F, rep, fn, values=[v, "String"], extra_term=extra_term, want_calls=False)
+        res = set()
+        for o in outs:
+            if o[0] != "return" or em.is_err_return(o):
+                continue
+            mach = tuple(m[1] for m in o[1] if m[0] == "machine")
+            direct = any(m[0] == "push" and m[1] == "value_stack" for m in o[1])
+            res.add((mach, direct))
+        exp_m = "want_format_object" if v == "Object" else "want_format_array"
+        ok = bool(res) and all(mach == (exp_m,) and not direct for mach, direct in res)
+        rep.ob(R, "do_std_format|%s" % v, ok, {"rhs": v, "paths(machine, direct answer)": sorted(map(str, res))})
+        if not ok:
+            rep.violation(R, "do_std_format|%s|bypass" % v, "std.format with a %s right-hand side: successful paths %s; every one must "
+                          "enter %s and none may push a result directly (argument-count errors would be skipped)"
+                          % (v, sorted(map(str, res)), exp_m), fn.loc)
+
+
 def run(F, rep, tier):
     rule_r1(F, rep)
     units.rule_mix(F, rep, "C19.R2")
@@ -384,6 +414,7 @@ def run(F, rep, tier):
     rule_r3(F, rep)
     rule_r4(F, rep)
     rule_r5(F, rep)
+    rule_r6(F, rep)
     from . import casts
     casts.rule(F, rep, "C06.R4")
     rep.assume("digit-exact rendering (rounding, exponent form, %g) is value-level and not decided")
